@@ -9,12 +9,15 @@ from zope.testrunner.find import name_from_layer
 from zope.testrunner.options import get_options
 
 from vt import world as W
-from vt.util import FakeGC, FakeTime, cb, ci, pick, untraced
+from zope.testrunner.interfaces import EndRun
+
+from vt.util import FakeGC, FakeTime, cb, ci, install_fake_pdb, pick, untraced
 
 R.time = FakeTime
 R.gc = FakeGC
 # traceback text is not the subject: skip the stdlib's (traced, slow) formatting
 R.TestResult._exc_info_to_string = lambda self, err, test: 'traceback'
+install_fake_pdb()
 LAST = None
 _OPT = []
 HOOKS = ['ST', 'S', 'T', '']      # per-test hook presence patterns
@@ -58,6 +61,14 @@ def build_layers(shape, h0, h1, instance=False):
         B = W.mk_layer('B', (A,), hooks=hk1, instance=instance)
         C = W.mk_layer('C', (B,), hooks='ST', instance=instance)
         return C, {'A': ((), hk0), 'B': (('A',), hk1), 'C': (('B',), 'ST')}
+    if shape == 3:
+        # diamond whose apex lists an unrelated base last, that base's name sorting before the shared base
+        S = W.mk_layer('S', (), hooks=hk0, instance=instance)
+        L = W.mk_layer('L', (S,), hooks=hk1, instance=instance)
+        Rr = W.mk_layer('R', (S,), hooks='ST', instance=instance)
+        A = W.mk_layer('A', (), hooks='ST', instance=instance)
+        T = W.mk_layer('T', (L, Rr, A), hooks='ST', instance=instance)
+        return T, {'S': ((), hk0), 'L': (('S',), hk1), 'R': (('S',), 'ST'), 'A': ((), 'ST'), 'T': (('L', 'R', 'A'), 'ST')}
     A = W.mk_layer('A', (), hooks=hk0, instance=instance)
     B = W.mk_layer('B', (A,), hooks=hk1, instance=instance)
     C = W.mk_layer('C', (A,), hooks='ST', instance=instance)
@@ -127,10 +138,11 @@ def check_brackets(trace, info, tests, kinds, repeat):
     return None
 
 
-def hooks(shape, h0, h1, n, k0, k1, k2, rep2, instance):
+def hooks(shape, h0, h1, n, k0, k1, k2, rep2, instance, pm=False):
     global LAST
     W.reset()
-    shape = ci(shape, 0, 2)
+    shape = ci(shape, 0, 3)
+    pm = cb(pm)
     n = ci(n, 1, 3)
     instance = cb(instance)
     repeat = 2 if rep2 else 1
@@ -143,13 +155,25 @@ def hooks(shape, h0, h1, n, k0, k1, k2, rep2, instance):
         suite = unittest.TestSuite(tests)
     o = _options()
     o.repeat = repeat
+    o.post_mortem = pm
     lname = name_from_layer(layer)
-    R.run_tests(o, suite, lname, [], [], [], [])
+    ended = False
+    try:
+        R.run_tests(o, suite, lname, [], [], [], [])
+    except EndRun:          # -D: the (stubbed) debugger was left after the first failing test
+        ended = True
     with untraced():          # the oracle reads concrete events only
         trace = [e[:3] for e in W.TRACE if e[1] in ('tsu', 'ttd', 'start', 'stop', 'setUp', 'test', 'tearDown', 'cleanup')]
-        why = check_brackets(trace, info, names, kinds, repeat)
+        exp_names, exp_kinds, exp_rep = names, kinds, repeat
+        if pm:
+            bad = [i for i, k in enumerate(kinds) if W.is_bad(k)]
+            if bad:          # the run ends with the first failing test, whose bracket must still be complete
+                exp_names, exp_kinds, exp_rep = names[:bad[0] + 1], kinds[:bad[0] + 1], 1
+            if bool(bad) != ended:
+                trace.append((0, 'endrun-mismatch', 'x'))
+        why = check_brackets(trace, info, exp_names, exp_kinds, exp_rep)
     LAST = (shape, tuple(sorted((k, v[1]) for k, v in info.items())), tuple(kinds), repeat, instance, why,
-            tuple(e[1:] for e in trace))
+            tuple(e[1:] for e in trace), pm)
     return why is None
 
 
@@ -159,14 +183,16 @@ def hooks_reach(*a):
 
 
 _P = [('shape', 'int'), ('h0', 'int'), ('h1', 'int'), ('n', 'int'), ('k0', 'int'), ('k1', 'int'), ('k2', 'int'),
-      ('rep2', 'bool'), ('instance', 'bool')]
+      ('rep2', 'bool'), ('instance', 'bool'), ('pm', 'bool')]
 _C = ', '.join(n for n, _ in _P)
 _K = '0 <= k0 <= 14 and 0 <= k1 <= 14 and 0 <= k2 <= 14'
-_B = '0 <= shape <= 2 and 0 <= h0 <= 3 and 0 <= h1 <= 3 and 1 <= n <= 3 and ' + _K
+# -D (post-mortem, debugger stubbed): kinds whose debug() run is well defined
+_PMK = ' and '.join('(k%d <= 3 or k%d == 12 or k%d == 13)' % (i, i, i) for i in range(3))
+_B = '0 <= shape <= 3 and 0 <= h0 <= 3 and 0 <= h1 <= 3 and 1 <= n <= 3 and (not pm or (not rep2 and %s)) and ' % _PMK + _K
 
 
 def _v(**kw):
-    v = dict(shape=1, h0=0, h1=0, n=2, k0=0, k1=1, k2=0, rep2=False, instance=False)
+    v = dict(shape=1, h0=0, h1=0, n=2, k0=0, k1=1, k2=0, rep2=False, instance=False, pm=False)
     v.update(kw)
     return v
 
@@ -180,18 +206,19 @@ SPEC = {
     'files': ['src/zope/testrunner/runner.py'],
     'stubs': ['unittest.TestResult._exc_info_to_string -> constant (traceback text is not the subject)', 'runner.time -> constant clock', 'runner.gc -> no-op collector', 'options.output -> recorder (start_test/stop_test delimit brackets)'],
     'assumptions': ['a decorator-skipped test that never starts may see either no per-test hooks at all or a complete balanced pair'],
-    'outside': ['more than 3 consecutive tests; layer graphs other than single / chain of 3 / diamond',
+    'outside': ['more than 3 consecutive tests; layer graphs other than single / chain of 3 / diamond / diamond with an extra unrelated base',
+                '-D with outcome kinds other than pass / fail / error / skip / setUp error / tearDown error (TestCase.debug() semantics)',
                 'unittest.TestCase.run of Python versions other than the one in /venv (3.12.1)'],
     'harnesses': [
         {'name': 'hooks', 'fn': 'hooks', 'params': _P, 'call': _C,
          # quick: all 15x15 kind pairs x 3 shapes x repeat, hook presence symbolic on the base layer only
          'bounds': {'quick': _B + ' and n <= 2 and h1 == 0 and not instance and k2 == 0',
                     'thorough': _B + ' and (n <= 2 or (h0 == 0 and h1 == 0 and not instance and not rep2))'},
-         'slices': {'quick': ['shape == %d and k0 == %d' % (s, k) for s in range(3) for k in range(15)],
-                    'thorough': ['shape == %d and k0 == %d and n == %d' % (s, k, n) for s in range(3) for k in range(15) for n in (1, 2, 3)]},
+         'slices': {'quick': ['shape == %d and k0 == %d' % (s, k) for s in range(4) for k in range(15)],
+                    'thorough': ['shape == %d and k0 == %d and n == %d' % (s, k, n) for s in range(4) for k in range(15) for n in (1, 2, 3)]},
          'reach': 'hooks_reach', 'reach_bounds': {'quick': _B + ' and n == 1 and shape == 1 and h0 == 0 and h1 == 0 and not instance and not rep2',
                                                   'thorough': _B + ' and n == 1 and shape == 1 and h0 == 0 and h1 == 0 and not instance and not rep2'},
          'timeout': {'quick': 240, 'thorough': 850},
-         'fidelity': [_v(), _v(shape=2, k0=4, k1=7, h0=1), _v(shape=0, n=3, k0=6, k1=4, k2=9, rep2=True, instance=True)]},
+         'fidelity': [_v(), _v(shape=2, k0=4, k1=7, h0=1), _v(shape=3, k0=1, k1=0), _v(pm=True, k0=0, k1=2, n=3, k2=0), _v(shape=0, n=3, k0=6, k1=4, k2=9, rep2=True, instance=True)]},
     ],
 }
